@@ -12,7 +12,7 @@ def run(check, tier):
     n = 2500 if tier == "quick" else 120000
     cases = []
     for i in range(n):
-        prof = ["plain", "plain", "control", "vars"][i % 4]
+        prof = ["plain", "plain", "control", "vars", "onmatch"][i % 5]
         cases.append(S.gen_case(check.seed, i, prof))
     interp_common.run_interp_cases(check, cases, "C01 profile", owns=["returned lines"])
     check.extra["rule"] = ("generated csvpaths over the modelled core function set (depth<=3, 1-5 components, both logic modes, generated scan parts) x generated "
